@@ -77,7 +77,7 @@ def run(facts, tier):
     #      boolean locals and helper predicates over the axis are all decided over the finite set of axes)
     st2 = res.rule("C05-reverse", instances=0)
     try:
-        dom = enumflow.Domain(facts, "model::AxisSpecifier", "model::AxisName", "Name")
+        dom = xpdispatch.axis_domain(facts)
         hits = enumflow.Flow(dom, f).run(lambda n: n.get("k") == "MethodCall" and n.get("m") == "reverse"
                                          and "xml_dom::XmlNode" in str(n.get("recvty", "")))
     except enumflow.Unknown as u:
@@ -86,15 +86,16 @@ def run(facts, tier):
     for _, s_ in hits:
         rev |= s_
     st2["instances"] += 1
-    ok = bool(hits) and rev - {"Abbreviated"} == REVERSE_AXES
+    abbreviated = {v for v in rev if v.startswith("Abbreviated")}
+    ok = bool(hits) and rev - abbreviated == REVERSE_AXES
     res.oblige(1, ok)
     res.sample({"rule": "C05-reverse", "reverse_sites": len(hits), "axes": sorted(rev)})
     if not ok:
         res.add(Finding("C05-reverse", "set", "proximity positions are reversed for %s, XPath 1.0 2.4 defines the reverse axes as %s"
-                        % (sorted(rev - {"Abbreviated"}) if rev else None, sorted(REVERSE_AXES)), f["file"], f["line"], {}))
+                        % (sorted(rev - abbreviated) if rev else None, sorted(REVERSE_AXES)), f["file"], f["line"], {}))
     # abbreviated axes are forward axes
     st2["instances"] += 1
-    bad = "Abbreviated" in rev
+    bad = bool(abbreviated)
     res.oblige(1, not bad)
     if bad:
         res.add(Finding("C05-reverse", "abbreviated", "an abbreviated step (child / attribute) is treated as a reverse axis", f["file"], f["line"], {}))
@@ -180,10 +181,12 @@ def run(facts, tier):
                any(tt.get("callee") and facts.callee_name(tt["callee"]) == "xml_xpath::eval::eval_predicate" for _, tt in facts.mir_calls(x))]
     if not callers:
         raise BrokenCheck("C05-frames: no caller of eval_predicate")
-    def frame_check(g, target_name, pos_from_arg=None):
-        """In g every call of `target_name` is dominated by push_size(len) [and push_position(index+1)].  When the position is a
-        parameter of g handed on unchanged (+k), g is a wrapper `push_position; eval; pop_position`: returns (param index, k)
-        and the callers of g are checked in its place."""
+    def frame_check(g, target_name, need_pos, need_size):
+        """Every call of `target_name` in g has the frames it needs: need_pos = "push" (a push_position(index+1) must dominate
+        it), ("arg", i, k) (the position is argument i of the call, handed on +k: index+1 in total), or None; need_size: a
+        push_size(len) must dominate it.  What g does not establish itself is asked of g's callers (a maintainer may split
+        `push_size .. for .. { push_position; eval; pop_position } .. pop_size` over several functions): returns
+        (problems, what the callers of g have to provide)."""
         succ = e1.cfg(facts, g)
         dom, _ = e1.dominators(succ)
         defs = e1.def_sites(facts, g)
@@ -191,51 +194,60 @@ def run(facts, tier):
         pp = [(bi, tt) for bi, tt in facts.mir_calls(g) if tt.get("callee") and facts.callee_name(tt["callee"]).endswith("Context::push_position")]
         ev = [(bi, tt) for bi, tt in facts.mir_calls(g) if tt.get("callee") and facts.callee_name(tt["callee"]) == target_name]
         problems = []
-        wrapper = None
-        if pos_from_arg is None:
+        up_pos, up_size = None, False
+        names = [q.get("name") for q in (g.get("params") or [])]
+        short = target_name.split("::")[-1]
+        if need_size:
+            if all(any(b in dom[e] for b, _ in ps) for e, _ in ev):
+                for bi, tt in ps:
+                    if e1.producer(facts, g, defs, tt["args"][1]) != "len":
+                        problems.append("push_size is not given the length of the node vector")
+            elif not ps:
+                up_size = True
+            else:
+                problems.append("%s is not dominated by push_size" % short)
+        if need_pos == "push":
+            if not all(any(b in dom[e] for b, _ in pp) for e, _ in ev):
+                problems.append("%s is not dominated by push_position" % short)
             affs = [c14.affine(facts, g, defs, tt["args"][1]) for _, tt in pp]
-            names = [q.get("name") for q in (g.get("params") or [])]
-            if affs and all(a[0].startswith("arg:") and a[0][4:] in names for a in affs) and len({a for a in affs}) == 1 and not ps:
-                if not all(any(b in dom[e] for b, _ in pp) for e, _ in ev):
-                    problems.append("eval_predicate is not dominated by push_position")
-                wrapper = (names.index(affs[0][0][4:]), affs[0][1])
-                return problems, wrapper
-            if not all(any(b in dom[e] for b, _ in ps) and any(b in dom[e] for b, _ in pp) for e, _ in ev):
-                problems.append("eval_predicate is not dominated by push_size and push_position")
-            for a in affs:
-                if a[1] != 1:
-                    problems.append("push_position is given index%+d, expected index+1" % a[1])
-        else:
-            pi, k = pos_from_arg
-            if not all(any(b in dom[e] for b, _ in ps) for e, _ in ev):
-                problems.append("%s is not dominated by push_size" % target_name.split("::")[-1])
+            if affs and all(a[0].startswith("arg:") and a[0][4:] in names for a in affs) and len(set(affs)) == 1:
+                up_pos = ("arg", names.index(affs[0][0][4:]), affs[0][1])      # the position comes in as a parameter
+            else:
+                for a in affs:
+                    if a[1] != 1:
+                        problems.append("push_position is given index%+d, expected index+1" % a[1])
+        elif need_pos is not None:
+            _, pi, k = need_pos
             for _, tt in ev:
                 a = c14.affine(facts, g, defs, tt["args"][pi]) if pi < len(tt.get("args", [])) else ("?", 0)
-                if a[1] + k != 1:
-                    problems.append("the position handed to %s is index%+d, expected index+1" % (target_name.split("::")[-1], a[1] + k))
-        for bi, tt in ps:
-            if e1.producer(facts, g, defs, tt["args"][1]) != "len":
-                problems.append("push_size is not given the length of the node vector")
-        return problems, None
+                if a[0].startswith("arg:") and a[0][4:] in names:
+                    up_pos = ("arg", names.index(a[0][4:]), a[1] + k)
+                elif a[1] + k != 1:
+                    problems.append("the position handed to %s is index%+d, expected index+1" % (short, a[1] + k))
+        return problems, (up_pos, up_size)
 
-    work = [(g, "xml_xpath::eval::eval_predicate", None) for g in callers]
+    work = [(g, "xml_xpath::eval::eval_predicate", "push", True) for g in callers]
     depth = 0
     while work and depth < 4:
         nxt = []
-        for g, target, pfa in work:
+        for g, target, need_pos, need_size in work:
             st5["instances"] += 1
-            problems, wrapper = frame_check(g, target, pfa)
-            if wrapper is not None and not problems:
+            problems, (up_pos, up_size) = frame_check(g, target, need_pos, need_size)
+            if not problems and (up_pos is not None or up_size):
                 up = [x for x in facts.fns.values() if x["crate"] == "xml_xpath" and "body" in x and x["id"] != g["id"] and
                       any(tt.get("callee") and facts.callee_name(tt["callee"]) == g["path"] for _, tt in facts.mir_calls(x))]
                 if not up:
-                    problems.append("wrapper without callers")
-                nxt += [(x, g["path"], wrapper) for x in up]
+                    problems.append("frames expected from the callers, but there is no caller")
+                nxt += [(x, g["path"], up_pos, up_size) for x in up]
             res.oblige(1, not problems)
             if problems:
                 res.add(Finding("C05-frames", g["path"].split("::")[-1], "%s: %s" % (g["path"], "; ".join(sorted(set(problems)))), g["file"], g["line"], {}))
         work = nxt
         depth += 1
+    if work:
+        g = work[0][0]
+        res.oblige(1, False)
+        res.add(Finding("C05-frames", g["path"].split("::")[-1], "%s: frames still expected from callers four levels up" % g["path"], g["file"], g["line"], {}))
     # ---- shared rules
     it, fns, rounds = c07.solve(facts)
     s = it.summary(facts.fn("xml_xpath::eval::document")["id"])
